@@ -8,6 +8,7 @@ def run(R):
     common.load_ir(R)
     names = common.names_for(R, 'C07')
     obs = check.verify_functions(R, names)
+    obs += common.avr_pass(R, names)
     obs += common.lemma_obligations(R, 'C07')
     check.discharge(R, obs, timeout=120)
     orc = zc.oracles(R)
